@@ -31,11 +31,19 @@ func sp(s string) *string { return &s }
 func (x *gen) leaf(name string) *sg.Node {
 	g := x.g
 	n := &sg.Node{Kind: "leaf", Name: name}
-	lt := g.Pick(5, "ltype")
+	lt := g.Pick(6, "ltype")
 	if lt == 4 && x.idb == "" {
 		lt = 0
 	}
 	switch lt {
+	case 5:
+		// the names of a leafref path follow the same rule as those of a must: unprefixed ones mean the module the copy ends
+		// up in, prefixed ones the module the prefix is bound to where the text is written
+		p := ""
+		if i := strings.Index(x.idb, ":"); i > 0 && g.Bool("pathownprefix") {
+			p = x.idb[:i+1]
+		}
+		n.Type = &sg.TypeSpec{Name: "leafref", Path: "../" + p + []string{"k", "enabled", "name"}[g.Pick(3, "lrpath")]}
 	case 4:
 		// which identities the leaf takes unqualified depends on the module it ends up in
 		n.Type = &sg.TypeSpec{Name: "identityref", Base: x.idb}
@@ -148,6 +156,9 @@ func (x *gen) body(depth int, gs []string, usesAllowed bool) []*sg.Node {
 				cs := &sg.Node{Kind: "case", Name: x.id("cs"), Kids: x.body(depth-2, gs, usesAllowed)}
 				ch.Kids = append(ch.Kids, cs)
 			}
+			if cs := plainCases(ch); len(cs) > 0 && g.Chance(1, 4, "chdefault") {
+				ch.Default = sp(cs[g.Pick(len(cs), "defcase")])
+			}
 			out = append(out, ch)
 		default:
 			if usesAllowed && len(gs) > 0 && !used {
@@ -156,6 +167,27 @@ func (x *gen) body(depth int, gs []string, usesAllowed bool) []*sg.Node {
 			} else {
 				out = append(out, x.leaf(x.id("lf")))
 			}
+		}
+	}
+	return out
+}
+
+// plainCases names the cases of a choice that can be its default: nothing mandatory in them, and no uses (whose
+// contents are not known here).
+func plainCases(ch *sg.Node) []string {
+	var plain func(kids []*sg.Node) bool
+	plain = func(kids []*sg.Node) bool {
+		for _, k := range kids {
+			if k.Kind == "uses" || k.Mandatory == "true" || k.Min != "" || !plain(k.Kids) {
+				return false
+			}
+		}
+		return true
+	}
+	var out []string
+	for _, cs := range ch.Kids {
+		if cs.Kind == "case" && plain(cs.Kids) {
+			out = append(out, cs.Name)
 		}
 	}
 	return out
@@ -228,8 +260,16 @@ func (x *gen) refine(t target) sg.Refine {
 			add("max-elements 9;")
 		}
 	case "choice":
-		if g.Chance(1, 2, "rchoice") && len(t.node.Kids) > 0 {
-			add("mandatory true;")
+		switch g.Pick(3, "rchoice") {
+		case 0:
+			if len(t.node.Kids) > 0 && t.node.Default == nil {
+				add("mandatory true;")
+			}
+		case 1:
+			// the default case is set, or replaced, by the refinement
+			if cs := plainCases(t.node); len(cs) > 0 && t.node.Mandatory == "" {
+				add(fmt.Sprintf("default %s;", cs[g.Pick(len(cs), "rdefcase")]))
+			}
 		}
 	}
 	if len(r.Stmts) == 0 {
